@@ -360,7 +360,7 @@ theorem sLookup (tbl : Table) (it : Item) (sst : Table) (hext : Extends sst (int
   simp [hs]
 
 theorem writeV_decodes (tbl : Table) (raw : RawValue F.Num) (fo : Option (List Char))
-    (hne : ¬ (raw.isEmpty = true ∧ fo = none)) :
+    (hnl : raw.isLazy = false) (hne : ¬ (raw.isEmpty = true ∧ fo = none)) :
     (∃ ext, (writeV F tbl (dataTypeOf F raw fo) raw).1 = tbl ++ ext) ∧
     ∃ ov, vNodes (writeV F tbl (dataTypeOf F raw fo) raw).2 = some (vKids ov) ∧
       ∀ (sst : Table) (ref : List Char) (styled : Bool) (xf : Nat),
@@ -400,27 +400,17 @@ theorem writeV_decodes (tbl : Table) (raw : RawValue F.Num) (fo : Option (List C
       rw [tAttrOf_str, decode_cN_str]
       simp [viewAt, fileKind, valueText]
   | rich rs =>
-    cases fo with
-    | none =>
-      have hd : dataTypeOf F (.rich rs : RawValue F.Num) none = tS := rfl
-      have e : writeV F tbl tS (.rich rs)
-          = ((intern tbl (itemOf F (.rich rs))).1, .text (escape (decDigits (intern tbl (itemOf F (.rich rs))).2))) := by
-        simp [writeV, RawValue.isEmpty]
-      rw [hd, e]
-      obtain ⟨⟨ext, he, _⟩, _⟩ := intern_spec tbl (itemOf F (.rich rs : RawValue F.Num))
-      refine ⟨⟨ext, he⟩, some (decDigits (intern tbl (itemOf F (.rich rs))).2), vNodes_escape _, ?_⟩
-      intro sst ref styled xf hext
-      rw [tAttrOf_s, decode_cN_s _ _ _ _ _ _ _ (sLookup tbl _ sst hext)]
-      simp [viewAt, fileKind, valueText, itemText, itemOf, getText, getRich]
-    | some f =>
-      have hd : dataTypeOf F (.rich rs : RawValue F.Num) (some f) = tSTR := rfl
-      have e : writeV F tbl tSTR (.rich rs) = (tbl, .text (partialEscape (richText rs))) := by
-        simp [writeV, RawValue.isEmpty, valueText, tS, tSTR]
-      rw [hd, e]
-      refine ⟨⟨[], by simp⟩, some (richText rs), vNodes_partialEscape _, ?_⟩
-      intro sst ref styled xf _
-      rw [tAttrOf_str, decode_cN_str]
-      simp [viewAt, fileKind, valueText]
+    -- with or without a formula: a shared-string item (fix 5)
+    have hd : dataTypeOf F (.rich rs : RawValue F.Num) fo = tS := by cases fo <;> rfl
+    have e : writeV F tbl tS (.rich rs)
+        = ((intern tbl (itemOf F (.rich rs))).1, .text (escape (decDigits (intern tbl (itemOf F (.rich rs))).2))) := by
+      simp [writeV, RawValue.isEmpty]
+    rw [hd, e]
+    obtain ⟨⟨ext, he, _⟩, _⟩ := intern_spec tbl (itemOf F (.rich rs : RawValue F.Num))
+    refine ⟨⟨ext, he⟩, some (decDigits (intern tbl (itemOf F (.rich rs))).2), vNodes_escape _, ?_⟩
+    intro sst ref styled xf hext
+    rw [tAttrOf_s, decode_cN_s _ _ _ _ _ _ _ (sLookup tbl _ sst hext)]
+    simp [viewAt, fileKind, valueText, itemText, itemOf, getText, getRich]
   | num n =>
     have hd : dataTypeOf F (.num n) fo = tN := by cases fo <;> rfl
     have e : writeV F tbl tN (.num n) = (tbl, .text (partialEscape (F.fmt n))) := by
@@ -448,38 +438,19 @@ theorem writeV_decodes (tbl : Table) (raw : RawValue F.Num) (fo : Option (List C
     intro sst ref styled xf _
     rw [tAttrOf_e, decode_cN_e]
     simp [viewAt, fileKind, valueText]
-  | lazy s =>
-    cases fo with
-    | none =>
-      have hd : dataTypeOf F (.lazy s : RawValue F.Num) none = [] := rfl
-      have e : writeV F tbl [] (.lazy s) = (tbl, .text (partialEscape [])) := by
-        simp [writeV, RawValue.isEmpty, valueText, tS, tSTR, tB, tE]
-      rw [hd, e]
-      refine ⟨⟨[], by simp⟩, some [], vNodes_partialEscape _, ?_⟩
-      intro sst ref styled xf _
-      rw [tAttrOf_nil, decode_cN_n]
-      simp [viewAt, fileKind, valueText]
-    | some f =>
-      have hd : dataTypeOf F (.lazy s : RawValue F.Num) (some f) = tSTR := rfl
-      have e : writeV F tbl tSTR (.lazy s) = (tbl, .text (partialEscape [])) := by
-        simp [writeV, RawValue.isEmpty, valueText, tS, tSTR]
-      rw [hd, e]
-      refine ⟨⟨[], by simp⟩, some [], vNodes_partialEscape _, ?_⟩
-      intro sst ref styled xf _
-      rw [tAttrOf_str, decode_cN_str]
-      simp [viewAt, fileKind, valueText]
+  | lazy s => simp [RawValue.isLazy] at hnl
 
-/-- one cell: whatever `Cell::write_to` writes for a cell renders, and the independent decoder reads from
-    it the cell's reference, kind, value text, formula text and style — against the reader's table of
-    ANY item table that extends the writer's (whatever later cells register) -/
-theorem writeTo_decodes (tbl : Table) (c : Cell F.Num) (tbl' : Table) (cx : CellX)
-    (h : writeTo F tbl c = some (tbl', some cx)) (xf : Nat) :
+/-- one cell, the body of `write_to` (value not lazy): whatever it writes for a cell renders, and the
+    independent decoder reads from it the cell's reference, kind, value text, formula text and style — against
+    the reader's table of ANY item table that extends the writer's (whatever later cells register) -/
+theorem writeCore_decodes (tbl : Table) (c : Cell F.Num) (hnl : c.raw.isLazy = false) (tbl' : Table) (cx : CellX)
+    (h : writeCore F tbl c = some (tbl', some cx)) (xf : Nat) :
     1 ≤ c.col ∧ cx.ref = coordinateFromIndexWithLock c.col c.row false false ∧ (∃ ext, tbl' = tbl ++ ext) ∧
     ∃ node, cellNode xf cx = some node ∧
-      ∀ sst : Table, Extends sst tbl' → decodeCell (sst.map itemText) node = (fileView F xf c, []) := by
+      ∀ sst : Table, Extends sst tbl' → decodeCell (sst.map itemText) node = (fileViewCore F xf c, []) := by
   obtain ⟨col, row, raw, fo, styled⟩ := c
-  unfold writeTo at h
-  by_cases hb : blankUnstyled F { col := col, row := row, raw := raw, formula := fo, styled := styled } = true
+  unfold writeCore at h
+  by_cases hb : blankCore F { col := col, row := row, raw := raw, formula := fo, styled := styled } = true
   · simp [hb] at h
   · by_cases hcol : col ≥ 1
     · have hco : coordinateFromIndexWithLock? col row false false = some (coordinateFromIndexWithLock col row false false) := by
@@ -500,12 +471,12 @@ theorem writeTo_decodes (tbl : Table) (c : Cell F.Num) (tbl' : Table) (cx : Cell
           exact cellNode_written xf _ [] styled none .absent none vNodes_absent
         · intro sst _
           rw [decode_cN_n]
-          simp [fileView, fileKind, valueText]
+          simp [fileViewCore, fileKind, valueText]
       · rw [if_neg he] at h
         injection h with h; injection h with h1 h2; injection h2 with h2
         have hne : ¬ (raw.isEmpty = true ∧ fo = none) := by
           intro hh; apply he; exact ⟨hh.1, by rw [hh.2]; rfl⟩
-        obtain ⟨⟨ext, hext⟩, ov, hv, hdec⟩ := writeV_decodes F tbl raw fo hne
+        obtain ⟨⟨ext, hext⟩, ov, hv, hdec⟩ := writeV_decodes F tbl raw fo hnl hne
         subst h1; subst h2
         refine ⟨hcol, rfl, ⟨ext, hext⟩,
           cElem (coordinateFromIndexWithLock col row false false) (tAttrOf (dataTypeOf F raw fo)) styled xf fo ov, ?_, ?_⟩
@@ -517,20 +488,28 @@ theorem writeTo_decodes (tbl : Table) (c : Cell F.Num) (tbl' : Table) (cx : Cell
         simp [coordinateFromIndexWithLock?, hcol]
       simp [hb, hco] at h
 
+/-- one cell, `Cell::write_to` itself: the view decoded is the one of the cell with its value resolved -/
+theorem writeTo_decodes (tbl : Table) (c : Cell F.Num) (tbl' : Table) (cx : CellX)
+    (h : writeTo F tbl c = some (tbl', some cx)) (xf : Nat) :
+    1 ≤ c.col ∧ cx.ref = coordinateFromIndexWithLock c.col c.row false false ∧ (∃ ext, tbl' = tbl ++ ext) ∧
+    ∃ node, cellNode xf cx = some node ∧
+      ∀ sst : Table, Extends sst tbl' → decodeCell (sst.map itemText) node = (fileView F xf c, []) :=
+  writeCore_decodes F tbl (Cell.resolved F c) (resolveRaw_not_lazy F c.raw) tbl' cx h xf
+
 /-- a cell that is not written leaves the table alone; a written one only appends to it -/
-theorem writeTo_grows (tbl : Table) (c : Cell F.Num) (tbl' : Table) (ox : Option CellX)
-    (h : writeTo F tbl c = some (tbl', ox)) :
-    (∃ ext, tbl' = tbl ++ ext) ∧ (ox = none ↔ blankUnstyled F c = true) := by
+theorem writeCore_grows (tbl : Table) (c : Cell F.Num) (hnl : c.raw.isLazy = false) (tbl' : Table) (ox : Option CellX)
+    (h : writeCore F tbl c = some (tbl', ox)) :
+    (∃ ext, tbl' = tbl ++ ext) ∧ (ox = none ↔ blankCore F c = true) := by
   cases ox with
   | some cx =>
-    obtain ⟨_, _, hg, _⟩ := writeTo_decodes F tbl c tbl' cx h 0
+    obtain ⟨_, _, hg, _⟩ := writeCore_decodes F tbl c hnl tbl' cx h 0
     refine ⟨hg, ?_⟩
     constructor
     · intro e; cases e
-    · intro hb; simp [writeTo, hb] at h
+    · intro hb; simp [writeCore, hb] at h
   | none =>
-    unfold writeTo at h
-    by_cases hb : blankUnstyled F c = true
+    unfold writeCore at h
+    by_cases hb : blankCore F c = true
     · simp only [hb, if_true] at h
       injection h with h; injection h with h1 _
       exact ⟨⟨[], by simp [h1]⟩, by simp [hb]⟩
@@ -538,6 +517,23 @@ theorem writeTo_grows (tbl : Table) (c : Cell F.Num) (tbl' : Table) (ox : Option
       split at h
       · cases h
       · split at h <;> · injection h with h; injection h with _ h2; cases h2
+
+theorem writeTo_grows (tbl : Table) (c : Cell F.Num) (tbl' : Table) (ox : Option CellX)
+    (h : writeTo F tbl c = some (tbl', ox)) :
+    (∃ ext, tbl' = tbl ++ ext) ∧ (ox = none ↔ blankUnstyled F c = true) :=
+  writeCore_grows F tbl (Cell.resolved F c) (resolveRaw_not_lazy F c.raw) tbl' ox h
+
+/-- the view does not change when the value is resolved beforehand -/
+theorem fileView_resolved (xf : Nat) (c : Cell F.Num) : fileView F xf (Cell.resolved F c) = fileView F xf c := by
+  unfold fileView; rw [resolved_idem]
+
+theorem viewCells_resolved (xf : List Char → Nat) (cs : List (Cell F.Num)) :
+    viewCells F xf (cs.map (Cell.resolved F)) = viewCells F xf cs := by
+  simp only [viewCells, List.map_map]
+  apply List.map_congr_left
+  intro c _
+  show (fileView F (xf _) (Cell.resolved F c), _) = _
+  rw [fileView_resolved]; rfl
 
 theorem extends_of_append {sst tbl ext : Table} (h : Extends sst (tbl ++ ext)) : Extends sst tbl := h.trans_append
 
@@ -633,7 +629,7 @@ theorem writeSheets_decodes (xf : Nat → List Char → Nat) (sheets : List (Lis
         refine ⟨⟨e1 ++ e2, by rw [he2, he1, List.append_assoc]⟩, nodes :: nodess, by simp [renderSheets, hn, hns], ?_⟩
         intro sst hx
         have hx1 : Extends sst t1 := by rw [he2] at hx; exact hx.trans_append
-        simp only [List.map_cons, normalize, viewSheets]
+        simp only [List.map_cons, normalize, viewSheets, viewCells_resolved]
         rw [hd sst hx1]
         have := hds sst hx
         simp only [normalize] at this
@@ -662,10 +658,10 @@ theorem writeBook_decodes (light : Bool) (sheets : List (List (Cell F.Num))) (b 
 
 /-! ### the writer is total on cells with a column ≥ 1 (the only panic of `Cell::write_to` modelled) -/
 
-theorem writeTo_total (tbl : Table) (c : Cell F.Num) (hc : 1 ≤ c.col) :
-    ∃ tbl' ox, writeTo F tbl c = some (tbl', ox) ∧ (blankUnstyled F c = false → ∃ cx, ox = some cx) := by
-  unfold writeTo
-  by_cases hb : blankUnstyled F c = true
+theorem writeCore_total (tbl : Table) (c : Cell F.Num) (hc : 1 ≤ c.col) :
+    ∃ tbl' ox, writeCore F tbl c = some (tbl', ox) ∧ (blankCore F c = false → ∃ cx, ox = some cx) := by
+  unfold writeCore
+  by_cases hb : blankCore F c = true
   · exact ⟨tbl, none, by simp [hb], fun h => by simp [hb] at h⟩
   · have hco : coordinateFromIndexWithLock? c.col c.row false false = some (coordinateFromIndexWithLock c.col c.row false false) := by
       simp [coordinateFromIndexWithLock?, coordinateFromIndexWithLock, hc]
@@ -673,6 +669,10 @@ theorem writeTo_total (tbl : Table) (c : Cell F.Num) (hc : 1 ≤ c.col) :
     by_cases he : c.raw.isEmpty = true ∧ c.formula.isNone = true
     · rw [if_pos he]; exact ⟨_, _, rfl, fun _ => ⟨_, rfl⟩⟩
     · rw [if_neg he]; exact ⟨_, _, rfl, fun _ => ⟨_, rfl⟩⟩
+
+theorem writeTo_total (tbl : Table) (c : Cell F.Num) (hc : 1 ≤ c.col) :
+    ∃ tbl' ox, writeTo F tbl c = some (tbl', ox) ∧ (blankUnstyled F c = false → ∃ cx, ox = some cx) :=
+  writeCore_total F tbl (Cell.resolved F c) hc
 
 theorem writeCells_total (cs : List (Cell F.Num)) (hc : ∀ c ∈ cs, 1 ≤ c.col) :
     ∀ tbl : Table, ∃ tbl' xs, writeCells F tbl cs = some (tbl', xs) := by
